@@ -1,7 +1,11 @@
 """C20 - the debtags database keeps its two indexes mutually inverse.
 
 case = {"kind": "history",
-        "init":   [[packages, tags, style], ...],   text lines for the first database's read()
+        "init":   [[packages, tags, style], ...],   text lines for the first database's read(), or
+                  {"big": {"chars": n, "block": B, "off": d}}   a long text written out by big_entries()
+        "form":   "iter" | "list" | "stringio" | "file"   how read() gets the text (default "iter"):
+                  iterator over the lines, list of lines, io.StringIO, real text file opened for reading
+        "final_newline": false                      the last line of the initial text has no newline
         "filter": null | [tags the tag_filter lets through],
         "ops":    [[op, target, args...], ...]}
 
@@ -11,14 +15,23 @@ pool members.  Operations (an inapplicable one is skipped):
   ["insert", i, pkg, tags]                       only a package name the target does not have
   ["reverse"|"reverse_copy"|"copy"|"facet", i]   derivation, result appended to the pool
   ["choose"|"choose_copy"|"filter_packages"|"filter_packages_copy", i, pkgs]
+                                                 choose*: pkgs may name packages the target does not
+                                                 have (choose_copy: see Interp.choose_copy)
   ["filter_packages_tags"|"filter_packages_tags_copy", i, pkgs, tags]   keeps (p, ts) with p in pkgs or ts & tags
   ["filter_tags"|"filter_tags_copy", i, tags]
-  ["read", lines, filter]                        a new database read from text
-  ["reread", i, lines, filter]                   read() into a database that already holds a collection
+  ["read", lines, filter, form]                  a new database read from text
+  ["reread", i, lines, filter, form]             read() into a database that already holds a collection
   ["mquery", i, names]                           packages_of_tags / tags_of_packages / ideal_tagset, each with
                                                  every rotation of the non-empty name list (see do_mquery)
   ["qio", i, [j, k], "fresh"|"reuse"|"into"]     qwrite() of members i, j, k one after another into one
                                                  in-memory file, qread() back in the same order (see do_qio)
+
+An op name prefixed with "old:" runs the whole step through the deprecated camelCase aliases
+(ALIAS: every derivation except reverse/copy, every query except card/discriminance, the three
+multi-name queries): the operation itself and the examination of the database it produced or
+changed.  An alias is documented as "use <method> instead", so exactly the same is demanded of it;
+DeprecationWarning is silenced for the duration of the case; a tree without some alias is asked
+under the snake_case name (label note:alias-missing-...).
 
 After every step every live database is compared with its reference state (model/c20_relation.py)
 through the public query methods.  A derivation documented as *sharing* sets with its source joins
@@ -29,12 +42,18 @@ through qread() is compared with the state its writer had at qwrite() time and i
 everything.  A query (mquery) and a write-out (qwrite) must leave *every* database of the pool
 exactly as it was; the value a multi-name query returns is only required to lie between the
 intersection and the union of the single-name answers (docstring "all" vs. computed union).
+The same holds for the single-name queries, which are asked with every name the database has and
+with names it does not have, and for a choose_packages_copy() that fails with KeyError because
+it was given a name the collection does not have.
 
 Known finding "insert-chars" (known_findings.json): dual model, see check_step().
 """
 import io
 import os
 import re
+import shutil
+import tempfile
+import warnings
 
 from hypothesis import strategies as st
 
@@ -48,15 +67,22 @@ ID = "C20"
 LEVEL = "exploration"
 RULE = ("cases are histories [init lines, tag filter, op list] over a pool of databases, compared "
         "with a reference relation after every step; enumerated: every op sequence of length 1..3 "
-        "over a 19-operation alphabet (each derivation kind + 4 inserts + read() into an existing "
+        "over a 19-operation alphabet (each derivation kind, choose_packages(_copy) with a name the "
+        "collection lacks + 4 inserts + read() into an existing "
         "database + the multi-name queries with a 5-name list in every rotation + a qwrite/qread "
-        "round trip of three pool members through one file) and, thorough only, of length 1..4 over "
-        "the first 17 of them x "
-        "target index 0..position on one fixed 5-package collection; generated: 0..8 initial packages "
+        "round trip of three pool members through one file), once with the snake_case methods and "
+        "once with every step through the deprecated camelCase aliases, and, thorough only, of length "
+        "1..4 over the first 17 of them (snake_case) x "
+        "target index 0..position on one fixed 5-package collection; enumerated long texts: 72 read()s of "
+        "3000/70000/140000 characters with the line ends aligned on every multiple of 512/4096/65536 "
+        "characters (offset -1, 0, +1) from an iterator, a list, an io.StringIO and a real file, last line "
+        "with and without newline; generated: 0..8 initial packages "
         "in single- and multi-package lines (distinct names of 1..6 characters; one-character names in "
         "about half of the positions and exclusively in a quarter of the histories), 14 facet::tag "
         "names sharing 6 facets, optional tag_filter, 1..12 operations (thorough: 1..20) = inserts, "
-        "all 12 derivations, further read()s into the pool and into existing members, multi-name "
+        "all 12 derivations (choose_packages_copy also with names the collection lacks), every read() "
+        "in one of the four input forms, a third of the steps through the deprecated aliases, "
+        "further read()s into the pool and into existing members, multi-name "
         "queries (1..4 names, existing and absent, as drawn and rotated), qwrite/qread of 1..3 "
         "members through one in-memory file into fresh DBs / one reused DB / an existing member; "
         "thorough adds a RuleBasedStateMachine "
@@ -73,13 +99,26 @@ ASSUMPTIONS = [
     "of its argument; all three must leave every database unchanged",
     "qwrite/qread use io.BytesIO; a database read back must show exactly the writer's state (keys with empty "
     "sets included: both indexes are stored)",
+    "a deprecated alias must behave exactly like the method it names (function_deprecated_by: 'Use <method> "
+    "instead'); warnings.catch_warnings silences DeprecationWarning per case; reverse, copy, insert, read, "
+    "qwrite, qread, card, discriminance have no alias and are called as they are in an 'old:' step",
+    "choose_packages_copy given a name the collection lacks: KeyError (then nothing was derived) or the "
+    "restriction to the names it has are both accepted; in either case every database is unchanged",
+    "read() input forms: iterator of lines, list of lines, io.StringIO, text file written with "
+    "encoding utf-8/newline='' into a per-read mkdtemp() (under /dev/shm when available) and opened with "
+    "open(path, 'r', encoding='utf-8'); each element/line ends with '\\n' except optionally the last",
     "Hypothesis 6.168 generators and stateful testing; sha1 for distinctness",
 ]
 EXHAUSTIVE = {
     "quick": "all op sequences of length 1..3 over the 19-op alphabet (incl. multi-name queries and the pickle "
-             "round trip) x target index 0..position on the fixed collection",
-    "thorough": "all op sequences of length 1..3 over the 19-op alphabet and of length 1..4 over its first 17 ops "
-                "(no multi-name queries / pickle round trip) x target index 0..position on the fixed collection",
+             "round trip) x target index 0..position on the fixed collection x spelling (all steps snake_case / "
+             "all steps through the deprecated aliases); 72 read()s of long texts: (3000 chars, block 512) / "
+             "(70000, 4096) / (140000, 65536) with a newline on every multiple of the block x offset -1/0/+1 x "
+             "4 input forms x last line with/without newline",
+    "thorough": "all op sequences of length 1..3 over the 19-op alphabet x both spellings and of length 1..4 over "
+                "its first 17 ops "
+                "(snake_case; no multi-name queries / pickle round trip) x target index 0..position on the fixed "
+                "collection; the 72 long-text read()s of the quick tier",
 }
 BUDGET = {"quick": 200, "thorough": 1500}
 
@@ -92,9 +131,38 @@ COPYING = {"reverse_copy": "reverse_copy", "copy": "copy", "facet": "facet_colle
            "choose_copy": "choose_packages_copy", "filter_packages_copy": "filter_packages_copy",
            "filter_packages_tags_copy": "filter_packages_tags_copy",
            "filter_tags_copy": "filter_tags_copy"}
+# the deprecated camelCase spelling every method of DB that has one is documented by
+ALIAS = {"facet_collection": "facetCollection", "reverse_copy": "reverseCopy",
+         "choose_packages": "choosePackages", "choose_packages_copy": "choosePackagesCopy",
+         "filter_packages": "filterPackages", "filter_packages_copy": "filterPackagesCopy",
+         "filter_packages_tags": "filterPackagesTags",
+         "filter_packages_tags_copy": "filterPackagesTagsCopy",
+         "filter_tags": "filterTags", "filter_tags_copy": "filterTagsCopy",
+         "has_package": "hasPackage", "has_tag": "hasTag", "tags_of_package": "tagsOfPackage",
+         "packages_of_tag": "packagesOfTag", "tags_of_packages": "tagsOfPackages",
+         "packages_of_tags": "packagesOfTags", "iter_packages": "iterPackages",
+         "iter_tags": "iterTags", "iter_packages_tags": "iterPackagesTags",
+         "iter_tags_packages": "iterTagsPackages", "package_count": "packageCount",
+         "tag_count": "tagCount", "ideal_tagset": "idealTagset"}
+OLD = "old:"                             # op-name prefix: this step goes through the deprecated aliases
+FORMS = ("iter", "list", "stringio", "file")     # how read() is handed its text
 NAME_OK = re.compile(r"[^\s,:]+\Z")      # what a line of the text format can carry as a package
 TAG_OK = re.compile(r"[^\s,]+\Z")
 ABSENT = ["zz-absent", "a", "f::a"]
+TAGS = ["f::a", "f::b", "f::c", "g::a", "g::b", "h::x::y", "h::x::z", "role::p", "role::q", "u::a"]
+HOT = TAGS[:4]
+
+
+def _scratch_parent():
+    """Memory-backed directory for the per-read mkdtemp() of the "file" input form when there is
+    one (directory operations on the disk dominate the run time otherwise); None = tempfile's default."""
+    if os.environ.get("TMPDIR"):
+        return None
+    d = "/dev/shm"
+    return d if os.path.isdir(d) and os.access(d, os.W_OK | os.X_OK) else None
+
+
+SCRATCH = _scratch_parent()
 
 
 def strs(x):
@@ -140,9 +208,30 @@ def clean_lines(entries, labels):
 # observing the implementation (public API only)
 
 
-def observe(db, who):
-    items = list(db.iter_packages_tags())
-    ritems = list(db.iter_tags_packages())
+def meth(db, name, old=False, labels=None):
+    """The bound method ``name`` of ``db`` - through its deprecated camelCase alias when ``old``
+    is set and the method has one (a tree without that alias is asked under the snake_case name)."""
+    if old and name in ALIAS:
+        f = getattr(db, ALIAS[name], None)
+        if callable(f):
+            return f
+        if labels is not None:
+            labels.add("note:alias-missing-snake_case-used:" + ALIAS[name])
+    return getattr(db, name)
+
+
+class quiet(warnings.catch_warnings):
+    """DeprecationWarning silenced for the duration of one case (the aliases warn on every call)."""
+
+    def __enter__(self):
+        r = warnings.catch_warnings.__enter__(self)
+        warnings.simplefilter("ignore", DeprecationWarning)
+        return r
+
+
+def observe(db, who, old=False):
+    items = list(meth(db, "iter_packages_tags", old)())
+    ritems = list(meth(db, "iter_tags_packages", old)())
     s = rel.State()
     for side, pairs, name in ((s.fwd, items, "iter_packages_tags"), (s.rev, ritems, "iter_tags_packages")):
         for pair in pairs:
@@ -156,31 +245,37 @@ def observe(db, who):
     return s
 
 
-def check_queries(db, s, who):
-    """Every query method agrees with the observed (and already model-checked) content ``s``."""
+def check_queries(db, s, who, old=False):
+    """Every query method - under its deprecated alias when ``old`` - agrees with the observed
+    (and already model-checked) content ``s``; names the collection does not have are asked, too."""
     def bad(method, arg, got, want):
-        raise Violation("query:" + method, "%s: %s(%s) = %s, the relation says %s" % (
-            who, method, "" if arg is None else repr(arg), short(got, 120), short(want, 120)))
+        raise Violation("query:" + (ALIAS.get(method, method) if old else method),
+                        "%s: %s(%s) = %s, the relation says %s" % (
+                            who, ALIAS.get(method, method) if old else method,
+                            "" if arg is None else repr(arg), short(got, 120), short(want, 120)))
     n, nt = len(s.fwd), len(s.rev)
-    if db.package_count() != n:
-        bad("package_count", None, db.package_count(), n)
-    if db.tag_count() != nt:
-        bad("tag_count", None, db.tag_count(), nt)
+    package_count, tag_count = meth(db, "package_count", old), meth(db, "tag_count", old)
+    if package_count() != n:
+        bad("package_count", None, package_count(), n)
+    if tag_count() != nt:
+        bad("tag_count", None, tag_count(), nt)
     for method, want in (("iter_packages", s.fwd), ("iter_tags", s.rev)):
-        got = list(getattr(db, method)())
+        got = list(meth(db, method, old)())
         if sorted(got, key=repr) != sorted(want, key=repr):
             bad(method, None, got, sorted(want))
+    has_package, has_tag = meth(db, "has_package", old), meth(db, "has_tag", old)
+    tags_of_package, packages_of_tag = meth(db, "tags_of_package", old), meth(db, "packages_of_tag", old)
     probes = set(s.fwd) | set(s.rev) | set(ABSENT)
     for k in sorted(probes):
-        if db.has_package(k) != (k in s.fwd):
-            bad("has_package", k, db.has_package(k), k in s.fwd)
-        if db.tags_of_package(k) != s.fwd.get(k, set()):
-            bad("tags_of_package", k, db.tags_of_package(k), s.fwd.get(k, set()))
-        if db.has_tag(k) != (k in s.rev):
-            bad("has_tag", k, db.has_tag(k), k in s.rev)
+        if has_package(k) != (k in s.fwd):
+            bad("has_package", k, has_package(k), k in s.fwd)
+        if tags_of_package(k) != s.fwd.get(k, set()):
+            bad("tags_of_package", k, tags_of_package(k), s.fwd.get(k, set()))
+        if has_tag(k) != (k in s.rev):
+            bad("has_tag", k, has_tag(k), k in s.rev)
         want = s.rev.get(k, set())
-        if db.packages_of_tag(k) != want:
-            bad("packages_of_tag", k, db.packages_of_tag(k), want)
+        if packages_of_tag(k) != want:
+            bad("packages_of_tag", k, packages_of_tag(k), want)
         if db.card(k) != len(want):
             bad("card", k, db.card(k), len(want))
         if db.discriminance(k) != min(len(want), n - len(want)):
@@ -198,6 +293,7 @@ class Entry(object):
         self.T = None        # what M alone says (differs from S only downstream of a hit)
         self.cls = self
         self.live = True
+        self.alias = False   # derived through the deprecated alias of ``origin``
 
     def find(self):
         e = self
@@ -207,7 +303,7 @@ class Entry(object):
         return e
 
     def name(self):
-        return "#%d(%s)" % (self.id, self.origin)
+        return "#%d(%s)" % (self.id, ALIAS.get(self.origin, self.origin) if self.alias else self.origin)
 
 
 def _value_ids(db):
@@ -248,10 +344,12 @@ class Interp(object):
 
     # -- the dual-model comparison ----------------------------------------------------------
 
-    def settle(self, e, spec, dev, truth, opname, opt_fwd=(), opt_rev=()):
+    def settle(self, e, spec, dev, truth, opname, opt_fwd=(), opt_rev=(), old=False):
         """Compare database ``e`` after ``opname`` with M (``spec``); failing that, and only while
-        the known finding is listed, with M' (``dev``).  Fitting neither is a Violation."""
-        obs = observe(e.db, e.name())
+        the known finding is listed, with M' (``dev``).  Fitting neither is a Violation.
+        With ``old`` the database is looked at through the deprecated aliases of the query methods
+        (which must show exactly what the methods they document show)."""
+        obs = observe(e.db, e.name(), old)
         if rel.agrees(obs, spec, opt_fwd, opt_rev):
             pass
         elif dev is not None and rel.agrees(obs, dev, opt_fwd, opt_rev):
@@ -276,7 +374,16 @@ class Interp(object):
             self.labels.add("state-downstream-of-known-finding")
         elif not e.S.is_relation():
             raise AssertionError("model M produced a non-relation")
-        check_queries(e.db, obs, e.name())
+        check_queries(e.db, obs, e.name(), old)
+        # asking (also for names the collection does not have) is not changing
+        again = observe(e.db, e.name())
+        if again != obs:
+            raise Violation("query-changes-collection", "%s after the %squery methods were called "
+                            "with every name it has and with %s: %s" % (
+                                e.name(), "deprecated aliases of the " if old else "", ABSENT,
+                                rel.diff(again, obs)))
+        if old:
+            self.labels.add("queries-via-deprecated-aliases")
         if obs.max_card() >= 2:
             self.shared_tag = True
 
@@ -305,24 +412,52 @@ class Interp(object):
             edges = cv[:cv.index(lca)] + ca[:ca.index(lca)]
             culprits = [e for e in edges if e.origin in COPYING.values()
                         and _value_ids(e.db) & _value_ids(e.parent.db)]
+            spelt = lambda e: ALIAS.get(e.origin, e.origin) if e.alias else e.origin   # noqa: E731
             if culprits:       # every such edge is needed for the damage; name the one nearest the victim
-                return culprits[0].origin + "-shares-sets"
-            named = sorted({e.origin for e in edges if e.origin in COPYING.values()})
+                return spelt(culprits[0]) + "-shares-sets"
+            named = sorted({spelt(e) for e in edges if e.origin in COPYING.values()})
             if named:
                 return "+".join(named) + "-not-independent"
         return "%s-changes-unrelated-db" % opname
 
     # -- operations -------------------------------------------------------------------------
 
-    def do_read(self, entries, flt, origin="read"):
+    def feed(self, db, lines, allowed, form, final_newline=True):
+        """db.read() of the text of ``lines``, handed over as ``form`` says: an iterator over the
+        lines, a list of lines, an io.StringIO, or a real text file opened for reading."""
+        text = [line_of(p, t, s) for p, t, s in lines]
+        if not final_newline and text and text[-1] != "\n":
+            text[-1] = text[-1][:-1]
+            self.labels.add("read:last-line-without-newline")
+        args = () if allowed is None else (lambda t: t in allowed,)
+        form = form if form in FORMS else "iter"
+        size = sum(map(len, text))
+        if form == "list":
+            db.read(list(text), *args)
+        elif form == "stringio":
+            db.read(io.StringIO("".join(text)), *args)
+        elif form == "file":
+            d = tempfile.mkdtemp(prefix="vcheck-c20-", dir=SCRATCH)
+            try:
+                path = os.path.join(d, "package-tags")
+                with open(path, "w", encoding="utf-8", newline="") as f:
+                    f.write("".join(text))
+                with open(path, "r", encoding="utf-8") as f:
+                    db.read(f, *args)
+            finally:
+                shutil.rmtree(d, ignore_errors=True)
+        else:
+            db.read(iter(text), *args)
+        self.labels.add("read-from:" + form)
+        if size > 65536:
+            self.labels.add("read-from:%s/text>64KiB" % form)
+
+    def do_read(self, entries, flt, origin="read", form="iter", final_newline=True, old=False):
         lines = clean_lines(entries, self.labels)
         allowed = None if flt is None else set(strs(flt))
         db = DB()
-        text = [line_of(p, t, s) for p, t, s in lines]
-        if allowed is None:
-            db.read(iter(text))
-        else:
-            db.read(iter(text), lambda t: t in allowed)
+        self.feed(db, lines, allowed, form, final_newline)
+        if allowed is not None:
             self.labels.add("read-with-tag-filter")
         if any(len(p) > 1 for p, _, _ in lines):
             self.labels.add("multi-package-line")
@@ -330,26 +465,24 @@ class Interp(object):
             self.labels.add("package-without-tags")
         e = self.add(db, origin, None, False)
         model_lines = [(p, t) for p, t, _ in lines if p]    # a line without packages is a blank line
-        self.settle(e, rel.read(model_lines, allowed), None, rel.read(model_lines, allowed), "read")
+        self.settle(e, rel.read(model_lines, allowed), None, rel.read(model_lines, allowed), "read",
+                    old=old)
         return e
 
-    def do_reread(self, e, entries, flt):
+    def do_reread(self, e, entries, flt, form="iter", old=False):
         """read() into a database that already holds a collection: "Read the database from a file"
         - afterwards it holds what the text says (that is also what the code does: both indexes are
         rebound).  Views that shared sets with the old content are retired; whatever is derived
         from the database from now on must reflect the new content."""
         lines = clean_lines(entries, self.labels)
         allowed = None if flt is None else set(strs(flt))
-        text = [line_of(p, t, s) for p, t, s in lines]
-        if allowed is None:
-            e.db.read(iter(text))
-        else:
-            e.db.read(iter(text), lambda t: t in allowed)
+        self.feed(e.db, lines, allowed, form)
         for o in self.live():
             if o is not e and o.find() is e.find():
                 o.live = False
         model_lines = [(p, t) for p, t, _ in lines if p]
-        self.settle(e, rel.read(model_lines, allowed), None, rel.read(model_lines, allowed), "reread")
+        self.settle(e, rel.read(model_lines, allowed), None, rel.read(model_lines, allowed), "reread",
+                    old=old)
         self.labels.add("op:read-into-existing-db")
         return e
 
@@ -361,14 +494,16 @@ class Interp(object):
                 raise Violation(sig, "%s on %s changed %s: %s" % (
                     opname, actor.name(), "itself" if o is actor else o.name(), rel.diff(obs, o.S)))
 
-    def do_mquery(self, e, names):
+    def do_mquery(self, e, names, old=False):
         """The multi-name queries packages_of_tags / tags_of_packages / ideal_tagset, each called
         with every rotation of the (non-empty, duplicate-free) name list, so that every name is the
         first argument once.  What is demanded: they are *queries* - afterwards every database of
         the pool is unchanged - and the answer lies between the intersection and the union of the
         single-name answers (the docstrings say "all", the code takes the union: either reading
         passes); ideal_tagset returns the set of a non-empty prefix of its argument ("taken in
-        consecutive sequence from the beginning", "always at least the first tag")."""
+        consecutive sequence from the beginning", "always at least the first tag").
+        With ``old`` all of this is asked of the deprecated aliases packagesOfTags /
+        tagsOfPackages / idealTagset."""
         names = [n for i, n in enumerate(strs(names)) if n not in strs(names)[:i]][:6]
         if not names:
             self.labels.add("note:mquery-skipped-empty-list")
@@ -386,7 +521,9 @@ class Interp(object):
             arg = names[r:] + names[:r]
             for method, side in (("packages_of_tags", S.rev), ("tags_of_packages", S.fwd)):
                 given = list(arg)
-                got = getattr(e.db, method)(given)
+                got = meth(e.db, method, old, self.labels)(given)
+                if old:
+                    method = ALIAS[method]
                 if not (isinstance(got, (set, frozenset)) and all(isinstance(x, str) for x in got)):
                     raise Violation("query:" + method, "%s: %s(%s) = %s" % (
                         e.name(), method, arg, short(got, 120)))
@@ -402,20 +539,24 @@ class Interp(object):
                         method, arg, short(given, 120)))
                 self.verify_all(e, "%s(%s)" % (method, arg), method + "-changes-collection")
             given = list(arg)
-            got = e.db.ideal_tagset(given)
+            ideal = ALIAS["ideal_tagset"] if old else "ideal_tagset"
+            got = meth(e.db, "ideal_tagset", old, self.labels)(given)
             if not (isinstance(got, (set, frozenset))
                     and any(set(got) == set(arg[:k]) for k in range(1, len(arg) + 1))):
-                raise Violation("query:ideal_tagset", "%s: ideal_tagset(%s) = %s, not a non-empty "
-                                "prefix of the argument" % (e.name(), arg, short(got, 120)))
+                raise Violation("query:" + ideal, "%s: %s(%s) = %s, not a non-empty "
+                                "prefix of the argument" % (e.name(), ideal, arg, short(got, 120)))
             if given != arg:
-                raise Violation("query:ideal_tagset", "ideal_tagset(%s) left its argument as %s" % (
-                    arg, short(given, 120)))
-            self.verify_all(e, "ideal_tagset(%s)" % arg, "ideal_tagset-changes-collection")
-        check_queries(e.db, e.S, e.name())
+                raise Violation("query:" + ideal, "%s(%s) left its argument as %s" % (
+                    ideal, arg, short(given, 120)))
+            self.verify_all(e, "%s(%s)" % (ideal, arg), ideal + "-changes-collection")
+        check_queries(e.db, e.S, e.name(), old)
+        self.verify_all(e, "the single-name queries", "query-changes-collection")
         self.labels.add("op:multi-name-queries")
+        if old:
+            self.labels.add("op-via-alias:multi-name-queries")
         return None
 
-    def do_qio(self, e, extras, mode):
+    def do_qio(self, e, extras, mode, old=False):
         """qwrite()/qread(): the target and up to two more pool members are written one after
         another into ONE in-memory file, which is then read back in the same order
 
@@ -452,7 +593,7 @@ class Interp(object):
                 holder = self.add(DB(), "qread", s, False)
                 out.append(holder)
             holder.db.qread(buf)
-            self.settle(holder, spec, None, truth, "qread")
+            self.settle(holder, spec, None, truth, "qread", old=old)
             self.verify_others(holder, "qread")
             if mode == "fresh":
                 holder = None
@@ -467,7 +608,7 @@ class Interp(object):
             self.labels.add("qread-twice-into-one-db" if len(written) >= 2 else "qread-into-new-db")
         return out or None
 
-    def do_insert(self, e, pkg, tags):
+    def do_insert(self, e, pkg, tags, old=False):
         if not isinstance(pkg, str) or not pkg or pkg in e.S.fwd or pkg in e.T.fwd:
             self.labels.add("note:insert-skipped-existing-name")
             return False
@@ -498,16 +639,17 @@ class Interp(object):
         if self.derived:
             self.insert_after_derivation = True
         self.settle(e, rel.insert(e.S, pkg, tags), rel.insert(e.S, pkg, tags, deviant=True),
-                    rel.insert(e.T, pkg, tags), "insert")
+                    rel.insert(e.T, pkg, tags), "insert", old=old)
         self.verify_others(e, "insert")
         return True
 
-    def do_derive(self, op, e, a, b):
+    def do_derive(self, op, e, a, b, old=False):
         S, T = e.S, e.T
         opt_fwd = opt_rev = ()
         dev = None
+        call = lambda name: meth(e.db, name, old, self.labels)    # noqa: E731
         if op in ("reverse", "reverse_copy"):
-            nd = e.db.reverse() if op == "reverse" else e.db.reverse_copy()
+            nd = e.db.reverse() if op == "reverse" else call("reverse_copy")()
             spec, truth = rel.swapped(S), rel.swapped(T)
         elif op == "copy":
             nd = e.db.copy()
@@ -520,36 +662,33 @@ class Interp(object):
                 self.labels.add("note:facet-skipped-tag-without-facet")
                 return None
             order = list(e.db.iter_packages())
-            nd = e.db.facet_collection()
+            nd = call("facet_collection")()
             spec, dev, truth = rel.facet(S), rel.facet(S, order, deviant=True), rel.facet(T)
             if len({rel.facet_of(t) for t in tags}) < len(tags):
                 self.labels.add("facet-merges-tags")
         elif op in ("choose", "choose_copy", "filter_packages", "filter_packages_copy"):
             sel = set(strs(a))
             if op == "choose":
-                nd = e.db.choose_packages(sorted(sel))
+                nd = call("choose_packages")(sorted(sel))
                 if sel - set(S.fwd):
                     self.labels.add("choose-with-missing-package")
             elif op == "choose_copy":
-                # choose_packages_copy is given existing packages only (it does not skip others)
-                nd = e.db.choose_packages_copy(sorted(sel & set(S.fwd)))
+                nd = self.choose_copy(e, sel, call("choose_packages_copy"))
             elif op == "filter_packages":
-                nd = e.db.filter_packages(lambda p: p in sel)
+                nd = call("filter_packages")(lambda p: p in sel)
             else:
-                nd = e.db.filter_packages_copy(lambda p: p in sel)
+                nd = call("filter_packages_copy")(lambda p: p in sel)
             (spec, opt_rev), (truth, _) = (rel.restrict_packages(S, lambda p, ts: p in sel),
                                            rel.restrict_packages(T, lambda p, ts: p in sel))
         elif op in ("filter_packages_tags", "filter_packages_tags_copy"):
             sel, tsel = set(strs(a)), set(strs(b))
             pred = lambda pt: pt[0] in sel or bool(pt[1] & tsel)   # noqa: E731
-            nd = (e.db.filter_packages_tags(pred) if op == "filter_packages_tags"
-                  else e.db.filter_packages_tags_copy(pred))
+            nd = call(op)(pred)
             keep = lambda p, ts: p in sel or bool(ts & tsel)       # noqa: E731
             (spec, opt_rev), (truth, _) = rel.restrict_packages(S, keep), rel.restrict_packages(T, keep)
         elif op in ("filter_tags", "filter_tags_copy"):
             tsel = set(strs(a))
-            nd = (e.db.filter_tags(lambda t: t in tsel) if op == "filter_tags"
-                  else e.db.filter_tags_copy(lambda t: t in tsel))
+            nd = call(op)(lambda t: t in tsel)
             (spec, opt_fwd), (truth, _) = (rel.restrict_tags(S, lambda t: t in tsel),
                                            rel.restrict_tags(T, lambda t: t in tsel))
             if opt_fwd:
@@ -566,14 +705,37 @@ class Interp(object):
                 self.labels.add("transitive-sharing")
         n = self.add(nd, origin, e, share)
         self.labels.add("op:" + origin)
+        if old and origin in ALIAS:
+            n.alias = True
+            self.labels.add("op-via-alias:" + ALIAS[origin])
+            origin = ALIAS[origin]
         if S != T:
             self.labels.add("derivation-from-state-downstream-of-known-finding")
-        self.settle(n, spec, dev, truth, origin, opt_fwd, opt_rev)
+        self.settle(n, spec, dev, truth, origin, opt_fwd, opt_rev, old)
         if len(spec.fwd) not in (0, len(S.fwd)) or len(spec.rev) not in (0, len(S.rev)):
             self.labels.add("proper-restriction")
         self.derived = True
         self.verify_others(n, origin)
         return n
+
+    def choose_copy(self, e, sel, choose_packages_copy):
+        """choose_packages_copy has no "if pkg in self.db": when some of the names are not
+        packages of the collection the call either fails with KeyError - then nothing was derived
+        and every database is as before, and the names the collection does have are chosen in a
+        second call - or it returns the restriction to the names it has (what choose_packages
+        does).  It never changes the collection it is asked of."""
+        have = sorted(sel & set(e.S.fwd))
+        if not sel - set(e.S.fwd):
+            return choose_packages_copy(have)
+        self.labels.add("choose_copy-with-missing-package")
+        try:
+            nd = choose_packages_copy(sorted(sel))
+        except KeyError:
+            nd = None
+            self.labels.add("choose_copy-with-missing-package:KeyError")
+        self.verify_all(e, "choose_packages_copy(%s)" % sorted(sel),
+                        "choose_packages_copy-unknown-name-changes-collection")
+        return choose_packages_copy(have) if nd is None else nd
 
     def step(self, op):
         """Apply one op; returns the Entry created, True for an executed insert, else None."""
@@ -582,28 +744,31 @@ class Interp(object):
             return None
         self.steps += 1
         name = op[0]
+        old = name.startswith(OLD)
+        if old:
+            name = name[len(OLD):]
         arg = lambda k: op[k] if len(op) > k else None   # noqa: E731
         if name == "read":
             if len(self.pool) >= 24:
                 return None
-            e = self.do_read(arg(1), arg(2))
+            e = self.do_read(arg(1), arg(2), form=arg(3), old=old)
             self.labels.add("op:read-into-pool")
             self.verify_others(e, "read")
             return e
         if name == "reread":
-            e = self.do_reread(self.target(arg(1)), arg(2), arg(3))
+            e = self.do_reread(self.target(arg(1)), arg(2), arg(3), arg(4), old)
             self.verify_others(e, "reread")
             return e
         if name == "insert":
-            return self.do_insert(self.target(arg(1)), arg(2), arg(3)) or None
+            return self.do_insert(self.target(arg(1)), arg(2), arg(3), old) or None
         if name == "mquery":
-            return self.do_mquery(self.target(arg(1)), arg(2))
+            return self.do_mquery(self.target(arg(1)), arg(2), old)
         if name == "qio":
-            return self.do_qio(self.target(arg(1)), arg(2), arg(3))
+            return self.do_qio(self.target(arg(1)), arg(2), arg(3), old)
         if name in SHARING or name in COPYING:
             if len(self.pool) >= 24:
                 return None
-            return self.do_derive(name, self.target(arg(1)), arg(2), arg(3))
+            return self.do_derive(name, self.target(arg(1)), arg(2), arg(3), old)
         self.labels.add("note:malformed-op-skipped")
         return None
 
@@ -626,15 +791,53 @@ class Interp(object):
         return (self.insert_after_derivation and self.shared_tag, labels)
 
 
+def big_entries(spec):
+    """A long text written out from three numbers (deterministic; the case stays small):
+    {"chars": n, "block": B, "off": d} = lines `pNNNNN: tags` (every 7th package without tags,
+    every 11th line naming two packages, 1..3 of the TAGS per line) until the text has n
+    characters, where for EVERY k >= 1 with k*B + d inside the text a line is lengthened (its
+    package name padded) so that its newline is character number k*B + d of the text: d = 0 the
+    k-th block of B characters ends with a newline, d = 1 the newline is the first character of the
+    next block, d = -1 one character earlier."""
+    def num(key, lo, hi, default):
+        v = spec.get(key) if isinstance(spec, dict) else None
+        return min(hi, max(lo, v)) if isinstance(v, int) and not isinstance(v, bool) else default
+    chars, block, off = num("chars", 0, 400000, 1000), num("block", 256, 1 << 20, 65536), num("off", -8, 8, 0)
+    out, size, i = [], 0, 0
+    target = block + off
+    while size < chars:
+        pkgs = ["p%05d" % i] + (["q%05d" % i] if i % 11 == 10 else [])
+        tags = [] if i % 7 == 6 else sorted({TAGS[i % 10], TAGS[(i // 10 + 3 * i) % 10],
+                                             TAGS[(i // 3) % 10]})[:1 + i % 3]
+        style = i % 4
+        length = len(line_of(pkgs, tags, style))
+        if size + length + 64 > target:          # no later line is sure to fit: this one is stretched
+            pad = target - size - length
+            if pad >= 0:
+                pkgs[0] += "x" * pad
+                length += pad
+                target += block
+        out.append([pkgs, tags, style])
+        size += length
+        i += 1
+    return out
+
+
 def check(case):
     if not isinstance(case, dict):
         return (False, ("note:invalid-case-skipped",))
-    it = Interp()
-    it.do_read(case.get("init"), case.get("filter"))
-    ops = case.get("ops")
-    for op in ops if isinstance(ops, list) else []:
-        it.step(op)
-    return it.result()
+    with quiet():
+        it = Interp()
+        init = case.get("init")
+        if isinstance(init, dict):
+            init = big_entries(init.get("big"))
+            it.labels.add("init:long-text-with-aligned-line-ends")
+        it.do_read(init, case.get("filter"), form=case.get("form"),
+                   final_newline=case.get("final_newline") is not False)
+        ops = case.get("ops")
+        for op in ops if isinstance(ops, list) else []:
+            it.step(op)
+        return it.result()
 
 
 # ------------------------------------------------------------------------------------------
@@ -660,21 +863,46 @@ ENUM_OPS_IO = ENUM_OPS + [
 ]
 
 
-def enum_cases(maxlen, alphabet):
+def enum_cases(maxlen, alphabet, spellings=("",)):
+    """Every op sequence of length 1..maxlen x target indices, once per spelling: "" = the
+    snake_case methods, OLD = every step of the history through the deprecated aliases."""
     def gen():
-        def rec(prefix, pos):
+        def rec(prefix, pos, mark):
             if prefix:
                 yield {"kind": "history", "init": ENUM_INIT, "filter": None, "ops": list(prefix)}
             if pos == maxlen:
                 return
             for o in alphabet:
                 for i in range(pos + 1):
-                    prefix.append([o[0], i] + o[1:])
-                    for c in rec(prefix, pos + 1):
+                    prefix.append([mark + o[0], i] + o[1:])
+                    for c in rec(prefix, pos + 1, mark):
                         yield c
                     prefix.pop()
-        return rec([], 0)
+        for mark in spellings:
+            for c in rec([], 0, mark):
+                yield c
     return gen
+
+
+# read() of long texts: (characters, block size) x offset of the aligned newlines x input form x
+# last line with/without newline; each followed by a copy-derivation and an insert
+BIG_SHAPES = [(3000, 512), (70000, 4096), (140000, 65536)]
+BIG_TAIL = [["filter_tags_copy", 0, HOT], ["insert", 1, "n", ["f::a"]]]
+
+
+LONG_DESC = ("read() of generated texts of 3000 / 70000 / 140000 characters in which the newline of a line is "
+             "character k*B+d for every k (B = 512 / 4096 / 65536) x d in -1, 0, +1 x input form (iterator of "
+             "lines, list, io.StringIO, real text file) x last line with / without newline, each followed by filter_tags_copy and an insert into the copy")
+
+
+def big_cases():
+    for chars, block in BIG_SHAPES:
+        for off in (-1, 0, 1):
+            for form in FORMS:
+                for final_newline in (True, False):
+                    yield {"kind": "history", "init": {"big": {"chars": chars, "block": block, "off": off}},
+                           "form": form, "final_newline": final_newline, "filter": None,
+                           "ops": [list(o) for o in BIG_TAIL]}
 
 
 # ------------------------------------------------------------------------------------------
@@ -687,8 +915,6 @@ def enum_cases(maxlen, alphabet):
 
 ONE = list("abcdepqxyz019é")
 MULTI = "abpx1-é"
-TAGS = ["f::a", "f::b", "f::c", "g::a", "g::b", "h::x::y", "h::x::z", "role::p", "role::q", "u::a"]
-HOT = TAGS[:4]
 EXTRA_TAGS = ["f::n", "g::n", "k::a", "role::n::m"]
 name1 = st.sampled_from(ONE)
 nameN = st.text(alphabet=st.sampled_from(MULTI), min_size=2, max_size=6)
@@ -728,8 +954,9 @@ op_d1 = st.tuples(st.sampled_from(["choose", "choose_copy", "filter_packages", "
 op_d2 = st.tuples(st.sampled_from(["filter_packages_tags", "filter_packages_tags_copy"]), IDX,
                   st.lists(st.one_of(ANY, st.sampled_from(TAGS)), max_size=3), tsel)
 op_d3 = st.tuples(st.sampled_from(["filter_tags", "filter_tags_copy"]), IDX, tsel)
-op_read = st.tuples(st.just("read"), read_lines, tag_filter)
-op_reread = st.tuples(st.just("reread"), IDX, read_lines, tag_filter)
+form = st.sampled_from(FORMS)
+op_read = st.tuples(st.just("read"), read_lines, tag_filter, form)
+op_reread = st.tuples(st.just("reread"), IDX, read_lines, tag_filter, form)
 op_mquery = st.tuples(st.just("mquery"), IDX,
                       st.lists(st.one_of(ANY, ANY, st.sampled_from(HOT), st.sampled_from(TAGS + EXTRA_TAGS)),
                                min_size=1, max_size=4))
@@ -738,9 +965,10 @@ op_qio = st.tuples(st.just("qio"), IDX, st.lists(IDX, max_size=2),
 any_op = st.one_of(op_insert, op_insert, op_insert, op_insert, op_insert, op_insert, op_insert,
                    op_d0, op_d0, op_d0, op_d0, op_facet, op_d1, op_d1, op_d2, op_d3, op_d3, op_read, op_reread,
                    op_mquery, op_mquery, op_qio)
+spelt_op = st.tuples(st.sampled_from(["", "", OLD]), any_op)    # a third of the steps: deprecated aliases
 
 
-def resolve_case(mode, names, init, flt, ops):
+def resolve_case(mode, names, init, flt, ops, form="iter", final_newline=True):
     """Turn the drawn references into strings (see the comment at the top of this section)."""
     k = 0
     lines = []
@@ -772,7 +1000,7 @@ def resolve_case(mode, names, init, flt, ops):
         return sorted(out)
 
     out = []
-    for op in ops:
+    for mark, op in ops:
         op = list(op)
         if op[0] == "insert":
             pkg = ref(op[2])
@@ -785,14 +1013,14 @@ def resolve_case(mode, names, init, flt, ops):
                 pk = [p for p in refs(pk) if p not in seen]
                 seen.update(pk)
                 rl.append([pk, sorted(tags), style])
-            op = ["read", rl, None if op[2] is None else sorted(op[2])]
+            op = ["read", rl, None if op[2] is None else sorted(op[2]), op[3]]
         elif op[0] == "reread":
             seen, rl = set(), []
             for pk, tags, style in op[2]:
                 pk = [p for p in refs(pk) if p not in seen]
                 seen.update(pk)
                 rl.append([pk, sorted(tags), style])
-            op = ["reread", op[1], rl, None if op[3] is None else sorted(op[3])]
+            op = ["reread", op[1], rl, None if op[3] is None else sorted(op[3]), op[4]]
         elif op[0] == "mquery":
             names_ = []
             for x in op[2]:                  # the order of the names is part of the case
@@ -806,16 +1034,19 @@ def resolve_case(mode, names, init, flt, ops):
             op = [op[0], op[1], refs(op[2])]
         elif len(op) == 4:
             op = [op[0], op[1], refs(op[2]), refs(op[3])]
+        op[0] = mark + op[0]
         out.append(op)
-    return {"kind": "history", "init": lines, "filter": None if flt is None else sorted(flt), "ops": out}
+    return {"kind": "history", "init": lines, "form": form, "final_newline": final_newline,
+            "filter": None if flt is None else sorted(flt), "ops": out}
 
 
 def gen_case(max_ops=12):
-    ops = st.one_of(st.lists(any_op, min_size=1, max_size=4),
-                    st.lists(any_op, min_size=5, max_size=max_ops),
-                    st.lists(any_op, min_size=max_ops // 2 + 2, max_size=max_ops))
+    ops = st.one_of(st.lists(spelt_op, min_size=1, max_size=4),
+                    st.lists(spelt_op, min_size=5, max_size=max_ops),
+                    st.lists(spelt_op, min_size=max_ops // 2 + 2, max_size=max_ops))
     return st.sampled_from(["mixed", "mixed", "single", "multi"]).flatmap(
-        lambda mode: st.builds(resolve_case, st.just(mode), NAMES[mode], init_lines, tag_filter, ops))
+        lambda mode: st.builds(resolve_case, st.just(mode), NAMES[mode], init_lines, tag_filter, ops, form,
+                                  st.sampled_from([True, True, False])))
 
 
 # ------------------------------------------------------------------------------------------
@@ -875,6 +1106,7 @@ def machine_phase(shard, nshards, seed, deadline, rec):
     m_psel = st.one_of(subset(MACHINE_POOL_NAMES, 8), subset(universe, 8), subset(TAGS, 5)).map(sorted)
     m_tsel = st.one_of(subset(TAGS, 6), subset(HOT, 3, 1), subset(universe, 8)).map(sorted)
     m_filter = st.one_of(st.none(), st.none(), subset(TAGS, 7).map(sorted))
+    m_old = st.sampled_from([False, False, True])
     def distinct(lines):
         seen, out = set(), []
         for pk, tags, style in lines:
@@ -901,7 +1133,8 @@ def machine_phase(shard, nshards, seed, deadline, rec):
                 self.stopped = True
                 return None
             try:
-                return fn()
+                with quiet():
+                    return fn()
             except Violation as v:
                 self.stopped = True
                 if v.sig in state["excluded"]:
@@ -914,56 +1147,60 @@ def machine_phase(shard, nshards, seed, deadline, rec):
             lv = self.it.live()
             return lv.index(entry) if entry in lv else entry.id
 
-        def apply(self, op_tail_builder, entry):
+        def apply(self, op_tail_builder, entry, old=False):
             if self.it is None or self.stopped:
                 return multiple()
             op = op_tail_builder(self.index_of(entry) if entry is not None else None)
+            if old:
+                op[0] = OLD + op[0]
             self.case["ops"].append(op)
             res = self.guard(lambda: self.it.step(op))
             if isinstance(res, list):
                 return multiple(*[r for r in res if isinstance(r, Entry)])
             return res if isinstance(res, Entry) else multiple()
 
-        @initialize(target=dbs, lines=m_lines, flt=m_filter)
-        def start(self, lines, flt):
-            self.case = {"kind": "history", "init": lines, "filter": flt, "ops": []}
+        @initialize(target=dbs, lines=m_lines, flt=m_filter, how=form)
+        def start(self, lines, flt, how):
+            self.case = {"kind": "history", "init": lines, "form": how, "filter": flt, "ops": []}
             self.it = Interp()
-            res = self.guard(lambda: self.it.do_read(lines, flt))
+            res = self.guard(lambda: self.it.do_read(lines, flt, form=how))
             return res if isinstance(res, Entry) else multiple()
 
-        @rule(target=dbs, lines=m_lines, flt=m_filter)
-        def read_new(self, lines, flt):
-            return self.apply(lambda i: ["read", lines, flt], None)
+        @rule(target=dbs, lines=m_lines, flt=m_filter, how=form)
+        def read_new(self, lines, flt, how):
+            return self.apply(lambda i: ["read", lines, flt, how], None)
 
         @rule(e=dbs, pkg=st.one_of(mname, mname, st.sampled_from(EXTRA_TAGS)), tags=m_tags)
         def insert(self, e, pkg, tags):
             self.apply(lambda i: ["insert", i, pkg, tags], e)
 
-        @rule(e=dbs, pkg=st.one_of(mname, mname, st.sampled_from(EXTRA_TAGS)), tags=m_tags)
-        def insert_again(self, e, pkg, tags):
-            self.apply(lambda i: ["insert", i, pkg, tags], e)
+        @rule(e=dbs, pkg=st.one_of(mname, mname, st.sampled_from(EXTRA_TAGS)), tags=m_tags, old=m_old)
+        def insert_again(self, e, pkg, tags, old):
+            self.apply(lambda i: ["insert", i, pkg, tags], e, old)
 
-        @rule(target=dbs, e=dbs, op=st.sampled_from(["reverse", "reverse_copy", "copy", "facet"]))
-        def derive(self, e, op):
-            return self.apply(lambda i: [op, i], e)
+        @rule(target=dbs, e=dbs, op=st.sampled_from(["reverse", "reverse_copy", "copy", "facet"]), old=m_old)
+        def derive(self, e, op, old):
+            return self.apply(lambda i: [op, i], e, old)
 
-        @rule(target=dbs, e=dbs, sel=m_psel,
+        @rule(target=dbs, e=dbs, sel=m_psel, old=m_old,
               op=st.sampled_from(["choose", "choose_copy", "filter_packages", "filter_packages_copy"]))
-        def select_packages(self, e, op, sel):
-            return self.apply(lambda i: [op, i, sel], e)
+        def select_packages(self, e, op, sel, old):
+            return self.apply(lambda i: [op, i, sel], e, old)
 
-        @rule(target=dbs, e=dbs, sel=subset(universe, 4).map(sorted), tsel=m_tsel,
+        @rule(target=dbs, e=dbs, sel=subset(universe, 4).map(sorted), tsel=m_tsel, old=m_old,
               op=st.sampled_from(["filter_packages_tags", "filter_packages_tags_copy"]))
-        def select_packages_tags(self, e, op, sel, tsel):
-            return self.apply(lambda i: [op, i, sel, tsel], e)
+        def select_packages_tags(self, e, op, sel, tsel, old):
+            return self.apply(lambda i: [op, i, sel, tsel], e, old)
 
-        @rule(target=dbs, e=dbs, tsel=m_tsel, op=st.sampled_from(["filter_tags", "filter_tags_copy"]))
-        def select_tags(self, e, op, tsel):
-            return self.apply(lambda i: [op, i, tsel], e)
+        @rule(target=dbs, e=dbs, tsel=m_tsel, op=st.sampled_from(["filter_tags", "filter_tags_copy"]),
+              old=m_old)
+        def select_tags(self, e, op, tsel, old):
+            return self.apply(lambda i: [op, i, tsel], e, old)
 
-        @rule(e=dbs, names=st.lists(st.sampled_from(universe), unique=True, min_size=1, max_size=4))
-        def multi_name_queries(self, e, names):
-            self.apply(lambda i: ["mquery", i, names], e)
+        @rule(e=dbs, names=st.lists(st.sampled_from(universe), unique=True, min_size=1, max_size=4),
+              old=m_old)
+        def multi_name_queries(self, e, names, old):
+            self.apply(lambda i: ["mquery", i, names], e, old)
 
         @rule(target=dbs, e=dbs, extras=st.lists(st.integers(0, 7), max_size=2),
               mode=st.sampled_from(["fresh", "fresh", "reuse", "into"]))
@@ -1000,9 +1237,11 @@ def machine_phase(shard, nshards, seed, deadline, rec):
 
 def sources(tier):
     if tier == "quick":
-        return [Enum("op-alphabet<=3", enum_cases(3, ENUM_OPS_IO), EXHAUSTIVE["quick"]),
+        return [Enum("op-alphabet<=3", enum_cases(3, ENUM_OPS_IO, ("", OLD)), EXHAUSTIVE["quick"]),
+                Enum("long-texts", big_cases, LONG_DESC),
                 Hyp("pool-histories", gen_case(12), 400, shards=8)]
-    return [Enum("op-alphabet<=3", enum_cases(3, ENUM_OPS_IO), EXHAUSTIVE["quick"]),
+    return [Enum("op-alphabet<=3", enum_cases(3, ENUM_OPS_IO, ("", OLD)), EXHAUSTIVE["quick"]),
+            Enum("long-texts", big_cases, LONG_DESC),
             Enum("op-alphabet17<=4", enum_cases(4, ENUM_OPS), EXHAUSTIVE["thorough"]),
             Hyp("pool-histories", gen_case(20), 5000, shards=16),
             Custom("state-machine", machine_phase, shards=8)]
